@@ -9,6 +9,68 @@ use ureq_proto::client::flow::RedirectAuthHeaders;
 
 pub struct P;
 
+/// Originals whose request target is not an absolute URI (authority-form, origin-form with the Host spelled out):
+/// there is no original scheme for the target's to equal, so the original Authorization may only travel to an
+/// https target on the original host, and only under the same-host policy; the Cookie never travels.
+fn non_absolute_original_case(idx: u64, rec: &mut Rec) {
+    use crate::core::{guarded, panic_sig};
+    let (method, target, orig_host): (&'static str, &str, Option<&str>) = [("GET", "a.test:8080", Some("a.test")), ("CONNECT", "a.test:443", Some("a.test")), ("GET", "/p?q=1", None), ("OPTIONS", "*", None)][(idx % 4) as usize];
+    let loc: &[u8] = [&b"http://a.test/x"[..], b"https://a.test/x", b"http://a.test:8080/x", b"https://b.test/", b"http://b.test/y", b"https://a.test:8443/z"][(idx / 4 % 6) as usize];
+    let policy = if idx / 24 % 2 == 0 { RedirectAuthHeaders::Never } else { RedirectAuthHeaders::SameHost };
+    let status = [301u16, 302, 307, 308][(idx / 48 % 4) as usize];
+    let cfg = ReqCfg::new(method, target).h("host", b"a.test").h("authorization", b"t0-secret").h("cookie", b"t0-c=1");
+    let mut head = format!("HTTP/1.1 {} R\r\nLocation: ", status).into_bytes();
+    head.extend_from_slice(loc);
+    head.extend_from_slice(b"\r\nContent-Length: 0\r\n\r\n");
+    let res = guarded(|| -> Result<Option<Vec<u8>>, String> {
+        let f = fast_to_recv(&cfg)?;
+        let (end, ..) = fast_response(f, &head)?;
+        match end {
+            End::Redirect(mut r) => match r.as_new_flow(policy) {
+                Ok(Some(nf)) => {
+                    let mut s = nf.proceed();
+                    write_head_big(&mut s).map(Some).map_err(|e| format!("redirected head: {:?}", e))
+                }
+                Ok(None) => Ok(None),
+                Err(_) => Ok(None),
+            },
+            End::Cleanup(_) => Err("no redirect state".into()),
+        }
+    });
+    rec.call();
+    rec.ev(|| format!("{} {} (Host a.test) answered {} Location {:?}, policy {:?} -> {:?}", method, target, status, esc(loc), policy, res.as_ref().map(|r| r.as_ref().map(|o| o.as_ref().map(|h| String::from_utf8_lossy(h).to_string())))));
+    match res {
+        Err((l, m)) => rec.fail(&format!("C13/{}", panic_sig(&l, &m)), format!("{} {}: panic {} at {}", method, target, m, l)),
+        Ok(Err(e)) => rec.fail("C13/setup", format!("{} {}: {}", method, target, e)),
+        Ok(Ok(None)) => rec.cov("non-absolute-original/not-followed"),
+        Ok(Ok(Some(h))) => {
+            rec.cov("non-absolute-original/followed");
+            let h = match parse_request_head_strict(&h) {
+                Ok(h) => h,
+                Err(e) => return rec.fail("C13/head-unparseable", e),
+            };
+            let t = split_uri(&String::from_utf8_lossy(loc));
+            let same_host = orig_host.map(|o| host_of(&t) == o).unwrap_or(false);
+            let https = scheme_of(&t) == "https";
+            for (n, v) in &h.headers {
+                let name = n.to_ascii_lowercase();
+                if name == "cookie" && v.starts_with(b"t0-") {
+                    return rec.fail("C13/cookie-leaked", format!("{} {} -> {:?}: the original cookie travels", method, target, esc(loc)));
+                }
+                if name == "authorization" && v.starts_with(b"t0-") {
+                    rec.cov("non-absolute-original/authorization-kept");
+                    if policy == RedirectAuthHeaders::Never || !same_host || !https {
+                        return rec.fail(
+                            &format!("C13/authorization-leaked/non-absolute-original/{}", if policy == RedirectAuthHeaders::Never { "never" } else if !same_host { "other-host" } else { "not-https" }),
+                            format!("{} {} (no scheme of its own) redirected to {:?} with policy {:?}: the original Authorization travels", method, target, esc(loc), policy),
+                        );
+                    }
+                }
+            }
+        }
+    }
+}
+
 fn chain_case(rng: &mut Rng, rec: &mut Rec) {
     let method = *rng.pick(&["GET", "GET", "HEAD", "POST", "PUT", "DELETE", "OPTIONS", "PATCH", "TRACE"]);
     let mut cfg = ReqCfg::new(method, &clean_start_uri(rng));
@@ -208,9 +270,15 @@ impl Property for P {
         ]
     }
     fn workloads(&self, tier: Tier) -> Vec<Workload> {
-        vec![Workload::new("chains", tier.pick(20_000, 8_000_000), false, "random redirect chains")]
+        vec![
+            Workload::new("chains", tier.pick(20_000, 8_000_000), false, "random redirect chains"),
+            Workload::new("non-absolute-originals", 4 * 6 * 2 * 4, true, "authority-form / origin-form / asterisk originals with Host, Authorization and Cookie x 6 absolute Locations x 2 policies x 4 statuses"),
+        ]
     }
     fn run_case(&self, wl: &str, idx: u64, seed: u64, rec: &mut Rec) {
+        if wl == "non-absolute-originals" {
+            return non_absolute_original_case(idx, rec);
+        }
         let mut rng = Rng::derive(seed, wl, idx);
         chain_case(&mut rng, rec)
     }
@@ -222,6 +290,7 @@ impl Property for P {
             v.push((format!("hop{}/other-host/*", hop), 5));
         }
         v.push(("hop2/same-host/upgrade/same-host-policy".into(), 3));
+        v.push(("non-absolute-original/followed".into(), 50));
         v.push(("hop1/same-host/same-scheme/never".into(), 20));
         v.push(("location-kind/abs-host-in-prefix-relation".into(), 100));
         v.push(("original/despite-method-with-content-length".into(), 100));
